@@ -153,8 +153,9 @@ def flatten_declared(cfg: Dict[str, Any]) -> Dict[str, List[Dict[str, Any]]]:
     dflt = {**((cfg.get("simulation") or {}).get("defaults") or {}), **(cfg.get("defaults") or {})}
 
     def with_default(item: Dict[str, Any], own: str, block: str) -> str:
+        # (a default applies where the item does not state the option itself)
         if isinstance(item, dict) and item.get(own) is not None:
-            return "*" if block in dflt else norm(item[own])
+            return norm(item[own])
         return norm(dflt[block]) if dflt.get(block) is not None else ""
 
     for n in nodes:
@@ -212,12 +213,9 @@ def flatten_declared(cfg: Dict[str, Any]) -> Dict[str, List[Dict[str, Any]]]:
                 for ok, ov in (s.get("options") or {}).items():
                     if ok == "type":
                         continue
-                    if str(ok) == "fixing_duration" and cat == "service" and "service_fix_duration" in dflt:
-                        continue  # (stated twice: no claim, see above)
                     fs.append(F("opt", [h, name, str(ok)], [_optval(str(ok), ov)]))
-                if cat == "service" and dflt.get("service_fix_duration") is not None:
-                    own = (s.get("options") or {}).get("fixing_duration")
-                    fs.append(F("opt", [h, name, "fixing_duration"], ["*" if own is not None else _optval("fixing_duration", dflt["service_fix_duration"])]))
+                if cat == "service" and dflt.get("service_fix_duration") is not None and (s.get("options") or {}).get("fixing_duration") is None:
+                    fs.append(F("opt", [h, name, "fixing_duration"], [_optval("fixing_duration", dflt["service_fix_duration"])]))
                 if cat == "service" and dflt.get("service_restart_duration") is not None:
                     fs.append(F("opt", [h, name, "restart_duration"], [_optval("restart_duration", dflt["service_restart_duration"])]))
         # users
@@ -226,6 +224,9 @@ def flatten_declared(cfg: Dict[str, Any]) -> Dict[str, List[Dict[str, Any]]]:
         # folders and files
         for fo in n.get("folders") or []:
             fs.append(F("folder", [h, norm(fo.get("folder_name"))], []))
+            if dflt.get("folder_scan_duration") is not None or dflt.get("folder_restore_duration") is not None:
+                fs.append(F("nodeopt", [h, "folder_durations:" + norm(fo.get("folder_name"))],
+                            [norm(dflt.get("folder_scan_duration", "*")), norm(dflt.get("folder_restore_duration", "*"))]))
             for fi in fo.get("files") or []:
                 fname, ftype = file_identity(norm(fi.get("file_name")), _opt(fi, "type"))
                 fs.append(F("file", [h, norm(fo.get("folder_name")), fname], [_opt(fi, "size"), ftype]))
@@ -376,6 +377,7 @@ def flatten_built(game) -> Dict[str, List[Dict[str, Any]]]:
             if getattr(fo, "deleted", False):
                 continue
             fs.append(F("folder", [h, norm(fo.name)], []))
+            fs.append(F("nodeopt", [h, "folder_durations:" + norm(fo.name)], [norm(fo.scan_duration), norm(fo.restore_duration)]))
             for fi in fo.files.values():
                 if getattr(fi, "deleted", False):
                     continue
